@@ -74,7 +74,7 @@ def render(seq, stack, ctx, flow, path, nw=1, nested=False):
             before = ctx.last
             n0 = ctx.n
             inner = render(kids, st, ctx, flow, path + ((c, i),), ctx.inw if not kids else nw, nested=True)
-            if ctx.tail and ctx.tail != 'NOWORD':
+            if ctx.tail and ctx.tail not in ('NOWORD', 'ADJ'):
                 inner += ' ' + ctx.tail
             if c == 'F':
                 out.append('\\foreignlanguage{%s}{%s}' % (l, inner))
@@ -98,6 +98,8 @@ def render(seq, stack, ctx, flow, path, nw=1, nested=False):
             out.append('\\textbf{%s}' % render(kids, stack, ctx, flow, path + (('B', i),), nw))
         if nested and ctx.tail == 'NOWORD' and i == len(seq) - 1:
             continue        # the inner construct closes together with the enclosing one
+        if ctx.tail == 'ADJ' and i < len(seq) - 1 and c in 'FOP' and ctx.C[seq[i + 1][0]][0] in 'FOP':
+            continue        # two language constructs directly behind each other (no word between them)
         first = 'W' + chr(97 + ctx.n // 26) + chr(97 + ctx.n % 26) + 'q'
         out.append(' '.join(ctx.w(stack[-1], flow, path) for _ in range(nw)))
         if pend is not None:
@@ -135,7 +137,7 @@ PREAMBLES = {
     'cls-en-pkg-de': ('\\documentclass[english]{article}\n\\usepackage[ngerman]{babel}\n', 'ru-RU', 'de-DE'),
     'cls-ru-pkg-none': ('\\documentclass[russian,a4paper]{scrartcl}\n\\usepackage[T1]{fontenc}\\usepackage{babel}\n', 'en-GB', 'ru-RU'),
 }
-TAILS = [None, '\\LaTeX', '\\xxx', 'NOWORD']
+TAILS = [None, '\\LaTeX', '\\xxx', 'NOWORD', 'ADJ']
 
 
 class C12:
